@@ -462,15 +462,19 @@ func runCmpSearch(c *Ctx) {
 				} else {
 					desc := lp.Holds(el+".Desc", token.EQL, "true")
 					asc := lp.Holds(el+".Desc", token.EQL, "false") || lp.Has(el+".Desc", token.EQL, "true", false)
-					if !desc && !asc {
-						good, why = false, "the column's direction is not consulted"
-						break
+					if s == 0 {
+						want = "next" // equal columns decide nothing, whatever the direction
+					} else {
+						if !desc && !asc {
+							good, why = false, "the column's direction is not consulted"
+							break
+						}
+						eff := s
+						if desc {
+							eff = -s
+						}
+						want = map[int64]string{-1: "true", 1: "false"}[eff]
 					}
-					eff := s
-					if desc {
-						eff = -s
-					}
-					want = map[int64]string{-1: "true", 0: "next", 1: "false"}[eff]
 				}
 				got := "next"
 				if !cont {
